@@ -77,12 +77,12 @@ class Obligation:
         return {'name': self.name, 'ok': self.ok, 'detail': self.detail[-2000:]}
 
 
-def build_coq():
-    """Full .vo build of the hand-written development (incremental, under a lock)."""
+def build_coq(targets=None):
+    """Full .vo build (never -vos) of the hand-written development, or of the given .vo targets and
+    everything they depend on; incremental, under a lock."""
     with Lock('coqbuild'):
-        if not os.path.exists(os.path.join(COQ, 'Makefile')):
-            sh(['sh', 'mkproject.sh'], cwd=COQ)
-        rc, out = sh('timeout 1500 make -j16 2>&1', cwd=COQ, timeout=1600)
+        sh(['sh', 'mkproject.sh'], cwd=COQ)
+        rc, out = sh('timeout 2400 make -j16 %s 2>&1' % ' '.join(targets or []), cwd=COQ, timeout=2500)
     return rc == 0, out
 
 
@@ -255,6 +255,7 @@ class Check:
     has_model = True
     model_fn = None           # e.g. ('run_C05', 'Model.M_reader')
     xcheck_n = 40
+    extra_targets = ()
     rule = ''
     assumptions = ()
 
@@ -330,8 +331,11 @@ class Check:
         violations = []
 
         # 1. proof obligations
-        ok, out = build_coq()
-        obligations.append(Obligation('coq-build(make, full .vo)', ok, '' if ok else out))
+        targets = [f[:-2] + '.vo' for f in tuple(self.props_files) + tuple(self.refuted_files)]
+        if self.has_model:
+            targets.append('Extract/X_%s.vo' % self.pid)
+        ok, out = build_coq(targets + list(self.extra_targets))
+        obligations.append(Obligation('coq-build(make %s, full .vo)' % ' '.join(targets), ok, '' if ok else out))
         hits = scan_forbidden(all_v_files())
         obligations.append(Obligation('no Admitted/admit/Axiom/Parameter/Conjecture/unset checks in coq/**/*.v',
                                       not hits, '; '.join(hits)))
